@@ -180,6 +180,9 @@ def convenience_classes(chk, rng):
             sim = sps.PassiveTransportFlowSimulator(kinematic_viscosity=0.1, grid_dim=dim, grid_size=shape, x_range=2.5, real_t=dtype)
             fields = {"primary": weird(shape, dtype, rng), "velocity": weird((dim,) + shape, dtype, rng)}
             io = spu.EulerianFieldIO(position_field=sim.position_field, eulerian_fields_dict=fields)
+            # the registry holds the live arrays: contents written AFTER registration are what gets saved
+            for v in fields.values():
+                v[...] = weird(v.shape, dtype, rng)
             io.save("conv.h5", time=1.5)
             fresh = {k: np.zeros_like(v) for k, v in fields.items()}
             io2 = spu.EulerianFieldIO(position_field=sim.position_field, eulerian_fields_dict=fresh)
@@ -201,7 +204,13 @@ def convenience_classes(chk, rng):
                                               density=1e3, youngs_modulus=1e6, shear_modulus=1e6 / 1.5)
             rod.radius[...] = rng.random(n) + 0.01
             rio = spu.CosseratRodIO(cosserat_rod=rod, dim=dim)
+            # the rod moves and changes radius after the IO object was built: save must write the CURRENT element positions
+            rod.position_collection[...] += rng.normal(size=rod.position_collection.shape)
+            rod.radius[...] = rng.random(n) + 0.01
             rio.save("rod.h5", time=2.25)
+            want_pos = 0.5 * (rod.position_collection[:dim, 1:] + rod.position_collection[:dim, :-1])
+            if not np.array_equal(rio.rod_element_position, want_pos):
+                chk.violation({"kind": "io_convenience", "cls": "CosseratRodIO"}, "CosseratRodIO.save did not refresh the element positions of the moved rod")
             saved_pos = rio.rod_element_position.copy()
             saved_rad = rod.radius.copy()
             rio.rod_element_position[...] = 0
